@@ -8,21 +8,23 @@ namespace PT
 /-- interning a native key whose name index, library and native symbol row are right: the new row's
 description -/
 theorem P.internFrame_native (p : P) (t : Nat) (th th0 : Thread) (st : ThreadStrings) (l c s flags : Nat)
+    (file' line col : Option Nat) (file : Option Str)
     (nd : NativeData) (name id : Str) (cs : (Str × Nat) × Str) (nsd : Option (Str × Nat × Option Nat × Str))
-    (h0 : p.threads[t]? = some th0) (hl : st.table.strings[l]? = some name) (hcs : subNames p.cats c s = some cs)
+    (h0 : p.threads[t]? = some th0) (hl : st.table.strings[l]? = some name)
+    (hf : optStr st.table.strings file' = some file) (hcs : subNames p.cats c s = some cs)
     (hlib : p.libs.getLibName nd.lib = some id)
     (hns : match nd.nsym with
       | none => nsd = none
       | some j => nsymOfCols st.table.strings p.libs.getLibName th.nsyms.addrs th.nsyms.sizes th.nsyms.libs
           th.nsyms.names j = nsd ∧ nsd.isSome)
-    (p2 : P) (t' i : Nat) (h : p.internFrame t th st ⟨l, some nd, c, s, none, none, none, flags⟩ = (p2, .h [t', i])) :
+    (p2 : P) (t' i : Nat) (h : p.internFrame t th st ⟨l, some nd, c, s, file', line, col, flags⟩ = (p2, .h [t', i])) :
     t' = t ∧ ∃ th2, p2.threads[t]? = some th2 ∧
-      th2.frames.keys[i]? = some ⟨l, some nd, c, s, none, none, none, flags⟩ ∧ th2.nsyms = th.nsyms ∧
+      th2.frames.keys[i]? = some ⟨l, some nd, c, s, file', line, col, flags⟩ ∧ th2.nsyms = th.nsyms ∧
       p2.libs = p.libs ∧
-      p2.descOf th2 ⟨l, some nd, c, s, none, none, none, flags⟩ =
-        some ⟨name, cs.1, cs.2, some id, some nd.addr, nsd, nd.depth, none, none, none, flags⟩ := by
+      p2.descOf th2 ⟨l, some nd, c, s, file', line, col, flags⟩ =
+        some ⟨name, cs.1, cs.2, some id, some nd.addr, nsd, nd.depth, file, line, col, flags⟩ := by
   unfold P.internFrame at h
-  cases hi : th.frames.indexFor ⟨l, some nd, c, s, none, none, none, flags⟩ p.libs st with
+  cases hi : th.frames.indexFor ⟨l, some nd, c, s, file', line, col, flags⟩ p.libs st with
   | none => simp [hi] at h
   | some r =>
     obtain ⟨ft, st', i'⟩ := r
@@ -45,7 +47,7 @@ theorem P.internFrame_native (p : P) (t : Nat) (th th0 : Thread) (st : ThreadStr
         | none =>
           simp only at hns hlib
           subst hns
-          simp [P.descOf, descOfCols, P.setThread, prefix_getElem? hpre hl, optStr, hcat, hsub, hlib]
+          simp [P.descOf, descOfCols, P.setThread, prefix_getElem? hpre hl, optStr_stable hpre hf, hcat, hsub, hlib]
         | some j =>
           simp only at hns hlib
           obtain ⟨hq, hsome⟩ := hns
@@ -58,7 +60,7 @@ theorem P.internFrame_native (p : P) (t : Nat) (th th0 : Thread) (st : ThreadStr
             split at hq'
             · rename_i nl na nsz nn g1 g2 g3 g4
               cases hq'
-              simp [P.descOf, descOfCols, P.setThread, prefix_getElem? hpre hl, optStr, hcat, hsub, hlib, g1, g2, g3, g4]
+              simp [P.descOf, descOfCols, P.setThread, prefix_getElem? hpre hl, optStr_stable hpre hf, hcat, hsub, hlib, g1, g2, g3, g4]
             · cases hq'
 
 /-- `resolve_frame_address` marks the library used and returns its used-lib index -/
@@ -248,8 +250,9 @@ theorem P.frameAddr_after (p1 : P) (hT : TInv p1) (hd : SDecAll p1) (t : Nat) (a
               simp only [hni] at h
               obtain ⟨sz, nm, q1, q2, q3, q4⟩ := nsym_intern p1.libs hT.libs th a3 a1 lib hl sym ns st i' nmi hni
               obtain ⟨e1, th2, e2, e3, _, _, e4⟩ := P.internFrame_native { p1 with libs := (p1.libs.indexForUsed lib).1 }
-                t { th with nsyms := ns } th st nmi c s flags ⟨(p1.libs.indexForUsed lib).2, some i', rel, 0⟩ nm
-                (p1.libs.all[lib]) cs (some (p1.libs.all[lib], sym.addr, sz, nm)) hth q2 hcs hlibname
+                t { th with nsyms := ns } th st nmi c s flags none none none none
+                ⟨(p1.libs.indexForUsed lib).2, some i', rel, 0⟩ nm
+                (p1.libs.all[lib]) cs (some (p1.libs.all[lib], sym.addr, sz, nm)) hth q2 rfl hcs hlibname
                 ⟨q1, rfl⟩ p2 t' i h
               refine ⟨e1, th, pr, _, th2, _, _, rfl, hpr, hla, e2, e3, e4, rfl, rfl, rfl, rfl, rfl, rfl, rfl, ?_⟩
               refine ⟨p1.libs.all[lib], hid, rfl, rfl, ?_⟩
@@ -261,8 +264,8 @@ theorem P.frameAddr_after (p1 : P) (hT : TInv p1) (hd : SDecAll p1) (t : Nat) (a
             obtain ⟨k1, k2⟩ := (hsd.mono g2).forGlobal _ _ g1
             obtain ⟨e1, th2, e2, e3, _, _, e4⟩ := P.internFrame_native
               (P.hexString { p1 with libs := (p1.libs.indexForUsed lib).1 } rel).1
-              t th th _ _ c s flags ⟨(p1.libs.indexForUsed lib).2, none, rel, 0⟩ (hexStr rel)
-              (p1.libs.all[lib]) cs none hth k2 hcs hlibname rfl p2 t' i h
+              t th th _ _ c s flags none none none none ⟨(p1.libs.indexForUsed lib).2, none, rel, 0⟩ (hexStr rel)
+              (p1.libs.all[lib]) cs none hth k2 rfl hcs hlibname rfl p2 t' i h
             refine ⟨e1, th, pr, _, th2, _, _, rfl, hpr, hla, e2, e3, e4, rfl, rfl, rfl, rfl, rfl, rfl, rfl, ?_⟩
             refine ⟨p1.libs.all[lib], hid, rfl, rfl, ?_⟩
             simp [hsym]
